@@ -106,7 +106,20 @@ def outcome(fn: Callable[[], Any]) -> Any:
     try:
         return fn()
     except Exception as ex:  # noqa
-        return Err(type(ex).__name__)
+        return Err(err_class(ex))
+
+
+def err_class(ex) -> str:
+    """Small error enum: NetmaskValueError (re-raised by the nc-bit limit and by bad prefix lengths),
+    ValueError (incl. AddressValueError, NetportsValueError, ...), TypeError, else the class name."""
+    from ipaddress import NetmaskValueError
+    if isinstance(ex, NetmaskValueError):
+        return "NetmaskValueError"
+    if isinstance(ex, ValueError):
+        return "ValueError"
+    if isinstance(ex, TypeError):
+        return "TypeError"
+    return type(ex).__name__
 
 
 # ------------------------------------------------------------------ context
